@@ -19,6 +19,10 @@
     * `idcstar_zero_of_inconsistent`             line 3: 'inconsistent' joint event ⇒ Zero
     * `idcstar_zero_line3_sound`                 … and then the joint event has probability 0 in every compatible functional SCM
     * `idcstar_fuel_mono`                        more fuel never changes an answer that was reached
+    * `idcstar_own_recursion_terminates`         TERMINATION of the line-4 recursion when no name is both an outcome and a
+                                                 condition: `|conditions| + 1` units of fuel are never exhausted
+                                                 (`idcStarO` = the model with its own exhaustion observable,
+                                                 `idcstar_model_is_idcStarO`); `idcstar_bound_suffices`: the model's bound is enough
     * `idcstar_division_modelled`                ID* never returns a Fraction: the modelled division covers every case
     * vocabulary (C06 part) `idcstar_vocab`      every leaf of a returned estimand is a single-world term
 
@@ -32,15 +36,22 @@
   --     proved for Zero from line 3 (`idcstar_zero_line3_sound`) and for Zero coming from ID*'s lines 2 and 5 (C07); Zero from
   --     deeper inside ID* is open (false today: F10/M5).
   --   theorem idcstar_terminates : idcStar … ≠ .error (.internal "fuel")
-  --     The two inner ID* calls terminate (Props/C07 `idstar_never_out_of_fuel`).  For the line-4 recursion of IDC* itself no
-  --     decreasing measure is proved, and the obvious ones FAIL on concrete inputs: the re-association of merged nodes
-  --     (`get_new_outcomes_and_conditions`, by variable NAME) can put a new key into BOTH dicts, so neither |conditions| nor
-  --     |outcomes| + |conditions| nor the number of distinct keys decreases at every step — e.g. graph B → C, event
-  --     outcomes {C_{a,b,c'} = c', B_{a',b,c'} = b'}, conditions {A_{a,b,c'} = a, C_{a} = c}: the next call has 3 outcomes and
-  --     2 conditions, 2 of them shared.  On 50 000 random inputs (≤ 6 nodes, ≤ 4 worlds) the recursion depth never exceeded
-  --     |conditions| + 1 (max 4) and no RecursionError occurred; checked on every generated input by the correspondence.
+  --     The two inner ID* calls terminate (Props/C07 `idstar_never_out_of_fuel`).  For the line-4 recursion of IDC* itself:
+  --     PROVED on every input in which no variable NAME occurs both among the outcomes and among the conditions
+  --     (`idcstar_own_recursion_terminates`, explicit bound |conditions| + 1, any graph, any iteration orders): there the
+  --     re-association never adds a condition and every level removes one.
+  --     OPEN when an outcome and a condition are copies of one variable (e.g. Y_x and Y_x'): the re-association of merged nodes
+  --     (`get_new_outcomes_and_conditions`, by variable NAME) can then put a new key into BOTH dicts, so |conditions| grows
+  --     (e.g. graph B → C, outcomes {C_{a,b,c'} = c', B_{a',b,c'} = b'}, conditions {A_{a,b,c'} = a, C_{a} = c}: the next call has
+  --     3 outcomes and 2 conditions, 2 of them shared).  A shared key is never exchanged itself (rule 2 would need it
+  --     d-separated from itself) but the exchange of another condition can SPLIT it into an outcome k_{..,c} and a condition
+  --     k; no linear combination of |keys|, |shared keys|, |unshared conditions|, |unshared outcomes| decreases through both
+  --     steps, a proof needs to know when the merge loop can eliminate a key again.  No looping input was found: 45 000
+  --     random inputs with up to 5 worlds, repeated names and keys shared between outcomes and conditions (and the 50 000 of
+  --     the previous round) never recursed deeper than |conditions| + 1; checked on every generated input by the correspondence.
 -/
 import Y0.Lemmas.CfIdcStar
+import Y0.Lemmas.CfIdcTerm
 import Y0.Props.C07
 
 namespace Y0.Cf
@@ -122,6 +133,53 @@ theorem idcstar_division_modelled (ev : Event) (e : Expr) (rs : List Name) (h : 
     conditional e rs ≠ .error (.internal "unmodelled: division by a Fraction") :=
   conditional_modelled e rs (idStarFuel_noFrac ordf dordf G _ ev e h)
 
+/-! ## 2b. termination of the line-4 recursion -/
+
+/-- `idcStarO` (Lemmas/CfIdcTerm.lean) is the IDC* model, equation by equation, with the exhaustion of IDC*'s OWN fuel made
+observable as `none` (in `idcStarFuel` it is the error `internal "fuel"`, which an inner ID* call could also produce) -/
+theorem idcstar_model_is_idcStarO (fuel : Nat) (outcomes conditions : Event) :
+    idcStarFuel ordf dordf kordf G fuel outcomes conditions =
+      match idcStarO ordf dordf kordf G fuel outcomes conditions with
+      | some r => r
+      | none => .error (.internal "fuel") :=
+  idcStarFuel_eq_idcStarO ordf dordf kordf G fuel outcomes conditions
+
+/-- **IDC*'s own recursion terminates, with the explicit bound `|conditions| + 1`, on every input in which no variable name
+occurs both among the outcomes and among the conditions** — for every graph (no well-formedness needed), every iteration
+order of the worlds / district nodes, and every order `kordf` that only permutes or selects the re-associated keys.
+Measure: `|conditions|`; the merge loop of the counterfactual graph renames keys within their name (`cg_count_le`), so
+the re-association returns at most `|conditions|` conditions (`reassoc_spec`), and line 4 removes one. -/
+theorem idcstar_own_recursion_terminates (hk : SubsetOrder kordf) (outcomes conditions : Event)
+    (hC : conditions.keys.Nodup) (hdis : ∀ o ∈ outcomes.keys, ∀ c ∈ conditions.keys, o.name ≠ c.name)
+    (fuel : Nat) (hfuel : conditions.length + 1 ≤ fuel) :
+    ∃ r, idcStarO ordf dordf kordf G fuel outcomes conditions = some r ∧
+      idcStarFuel ordf dordf kordf G fuel outcomes conditions = r := by
+  have h := idcStarO_isSome ordf dordf G hk fuel outcomes conditions hC
+    (fun o ho hmem => by
+      obtain ⟨c, hc, hcn⟩ := List.mem_map.1 hmem
+      exact hdis o ho c hc hcn.symm) hfuel
+  obtain ⟨r, hr⟩ := Option.isSome_iff_exists.1 h
+  refine ⟨r, hr, ?_⟩
+  rw [idcStarFuel_eq_idcStarO, hr]
+
+/-- the bound the model itself uses (`2(|outcomes| + |conditions|) + |V| + 4`) is enough there: `idc_star` is the
+result of the un-exhausted recursion -/
+theorem idcstar_bound_suffices (hk : SubsetOrder kordf) (outcomes conditions : Event)
+    (hC : conditions.keys.Nodup) (hdis : ∀ o ∈ outcomes.keys, ∀ c ∈ conditions.keys, o.name ≠ c.name) :
+    ∃ r, idcStarO ordf dordf kordf G (idcStarFuelBound G outcomes conditions) outcomes conditions = some r ∧
+      idcStar ordf dordf kordf G outcomes conditions = r := by
+  unfold idcStar
+  exact idcstar_own_recursion_terminates ordf dordf kordf G hk outcomes conditions hC hdis _
+    (by unfold idcStarFuelBound; omega)
+
+/-- … and every larger fuel gives the same un-exhausted run (so the answer does not depend on the fuel) -/
+theorem idcstar_fuel_irrelevant (hk : SubsetOrder kordf) (outcomes conditions : Event)
+    (hC : conditions.keys.Nodup) (hdis : ∀ o ∈ outcomes.keys, ∀ c ∈ conditions.keys, o.name ≠ c.name)
+    (fuel : Nat) (hfuel : conditions.length + 1 ≤ fuel) :
+    (idcStarO ordf dordf kordf G fuel outcomes conditions).isSome = true := by
+  obtain ⟨r, hr, _⟩ := idcstar_own_recursion_terminates ordf dordf kordf G hk outcomes conditions hC hdis fuel hfuel
+  rw [hr]; rfl
+
 /-! ## 3. vocabulary (C06, IDC* part) -/
 
 /-- every estimand IDC* returns is built from single-world interventional terms -/
@@ -133,5 +191,16 @@ theorem idcstar_vocab (outcomes conditions : Event) (e : Expr)
 
 /-- the hypothesis of `idcstar_rejects_effectiveness_violation` is satisfiable: `{X_x = x'}` -/
 example : violatesEffectiveness [(⟨0, none, false, [⟨0, false⟩]⟩, ⟨0, true⟩)] = true := by decide
+
+/-- the hypotheses of `idcstar_own_recursion_terminates` are satisfiable by a query on which line 4 does recurse:
+`P(Y_x = y | Z = z)` (X=0, Y=1, Z=2): conditions form a dict, no name shared; identity order for the re-associated keys -/
+example : SubsetOrder (fun l : List Var => l) ∧
+    (Event.keys [(⟨2, none, false, []⟩, ⟨2, false⟩)]).Nodup ∧
+    (∀ o ∈ Event.keys [(⟨1, none, false, [⟨0, false⟩]⟩, ⟨1, false⟩)],
+      ∀ c ∈ Event.keys [(⟨2, none, false, []⟩, ⟨2, false⟩)], o.name ≠ c.name) := by
+  refine ⟨fun _ _ h => h, by decide, by decide⟩
+
+/-- the order the correspondence check uses for the re-associated keys satisfies the hypothesis on `kordf` -/
+example (rev : Bool) : SubsetOrder (orderDistrict rev) := subsetOrder_orderDistrict rev
 
 end Y0.Cf
